@@ -33,7 +33,7 @@ structure FnOK (G : GCtx) (g : String) (fd : FnDef) (I : FnInfo) (stmts : List S
   slot : ∀ m, I.N m → I.σ m < (fnParts G.mod I.φ fd stmts (some e) I.scopes0 I.vm0 I.lm0).envE.nv
   frame : (fnParts G.mod I.φ fd stmts (some e) I.scopes0 I.vm0 I.lm0).envE.nv ≤ G.F
   okS : Frag.okFSs G.fr false true stmts = true
-  okE : Frag.okGE e = true
+  okE : Frag.okE G.fr e = true
   wsS : Frag.wsGSs G.mod g I.φ [] stmts (fnParts G.mod I.φ fd stmts (some e) I.scopes0 I.vm0 I.lm0).envB = true
   wsE : Frag.wsGE (fnParts G.mod I.φ fd stmts (some e) I.scopes0 I.vm0 I.lm0).envS.scopes I.φ e = true
   tParams : ∀ p ∈ fd.params, p.name ∈ I.T
@@ -136,7 +136,7 @@ theorem simGE_pure (G : GCtx) (A : Act) (hA : A.OK G) (fuel : Nat) (e : Expr) (s
   cases r with
   | ok v =>
     obtain ⟨rfl, _⟩ := h ⟨[], 0⟩
-    exact ⟨rfl, mem, Runs.of_runsTo (fun it => (h it).2), MemLe.refl _ _ _⟩
+    exact ⟨rfl, mem, none, OrgOK.none _, Runs.of_runsTo (fun it => (h it).2), MemLe.refl _ _ _⟩
   | error c =>
     cases c <;> first | trivial | exact (h ⟨[], 0⟩).elim | skip
     obtain ⟨rfl, _⟩ := h ⟨[], 0⟩
@@ -354,8 +354,9 @@ def SimArgs (G : GCtx) (A : Act) (ip n : Nat) (stk : List SVal) (mem : Mem) (st 
   match r with
   | (.ok vals, st') =>
     st' = { st with out := st'.out, heap := st'.heap } ∧
-      ∃ mem', Runs G.fr G.code G.lim G.s A.fn A.rest A.mp ip stk mem st.world (ip + n)
-          (vals.map (⟨·, none⟩) ++ stk) mem' st'.world ∧ MemLe G.fr A.mp mem mem'
+      ∃ mem' svals, svals.map (·.v) = vals ∧ (G.fr = false → svals = vals.map (⟨·, none⟩)) ∧
+        Runs G.fr G.code G.lim G.s A.fn A.rest A.mp ip stk mem st.world (ip + n)
+          (svals ++ stk) mem' st'.world ∧ MemLe G.fr A.mp mem mem'
   | (.error (.fatal kd m sp), st') =>
     kd ≠ "StackOverFlow" → RunsF G.code G.lim G.s A.fn A.rest A.mp ip stk mem st.world kd m sp st'.world
   | (.error (.throw msg sp), st') =>
@@ -368,7 +369,7 @@ def SimArgs (G : GCtx) (A : Act) (ip n : Nat) (stk : List SVal) (mem : Mem) (st 
 def PE (G : GCtx) (fuel : Nat) : Prop :=
   ∀ (A : Act), A.OK G → ∀ (e : Expr) (st : St) (ip : Nat) (stk : List SVal) (mem : Mem) (lm : LM)
     (scopes : CScopes) (vm : List (String × Nat)),
-    Frag.okGE e = true → Frag.wsGE scopes A.φ e = true → (∀ x ∈ Frag.namesGE e, x ∈ A.T) →
+    Frag.okE G.fr e = true → Frag.wsGE scopes A.φ e = true → (∀ x ∈ Frag.namesGE e, x ∈ A.T) →
     Placed A.lab A.σ A.c ip (cgE G.mod (ρS scopes) A.φ e lm).1 →
     StRel G.mod A.T A.N A.σ G.lim A.mp scopes vm st.scopes mem → SpecOK G A.mp st →
     SimGE G A ip (nI (cgE G.mod (ρS scopes) A.φ e lm).1) stk mem st (evalExpr G.cfg fuel e st)
@@ -376,7 +377,7 @@ def PE (G : GCtx) (fuel : Nat) : Prop :=
 def PGB (G : GCtx) (fuel : Nat) : Prop :=
   ∀ (A : Act), A.OK G → ∀ (b : Block) (st : St) (ip : Nat) (stk : List SVal) (mem : Mem) (lm : LM)
     (scopes : CScopes) (vm : List (String × Nat)),
-    Frag.okGB b = true → Frag.resolved scopes (Frag.varsGB b) = true → Frag.callsOK scopes A.φ (Frag.callsGB b) = true →
+    Frag.okEB G.fr b = true → Frag.resolved scopes (Frag.varsGB b) = true → Frag.callsOK scopes A.φ (Frag.callsGB b) = true →
     (∀ x ∈ Frag.varsGB b ++ Frag.callsGB b, x ∈ A.T) →
     Placed A.lab A.σ A.c ip (cgB G.mod (ρS scopes) A.φ b lm).1 →
     StRel G.mod A.T A.N A.σ G.lim A.mp scopes vm st.scopes mem → SpecOK G A.mp st →
@@ -385,7 +386,7 @@ def PGB (G : GCtx) (fuel : Nat) : Prop :=
 def PArgs (G : GCtx) (fuel : Nat) : Prop :=
   ∀ (A : Act), A.OK G → ∀ (args : List (String × Expr)) (st : St) (ip : Nat) (stk : List SVal)
     (mem : Mem) (lm : LM) (scopes : CScopes) (vm : List (String × Nat)),
-    Frag.okGArgs args = true → Frag.oneNonAtom args = true → Frag.wsGArgs scopes A.φ args = true →
+    Frag.okEArgs G.fr args = true → Frag.oneNonAtom args = true → Frag.wsGArgs scopes A.φ args = true →
     (∀ x ∈ Frag.namesGArgs args, x ∈ A.T) →
     Placed A.lab A.σ A.c ip (cgArgs G.mod (ρS scopes) A.φ args lm).1 →
     StRel G.mod A.T A.N A.σ G.lim A.mp scopes vm st.scopes mem → SpecOK G A.mp st →
@@ -396,10 +397,10 @@ def PCall (G : GCtx) (fuel : Nat) : Prop :=
   ∀ (g : String) (fd : FnDef) (I : FnInfo) (stmts : List Stmt) (e : Expr), G.K g →
     findFn G.cfg.prog G.mod g = some fd → FnOK G g fd I stmts e →
     (G.fr = true → ∀ y ∈ I.T, ("$iter_" ++ y) ∉ I.T) →
-    ∀ (sp : Span) (vals : List Val) (st : St) (frames : List Frame) (mp : Int) (stk : List SVal)
+    ∀ (sp : Span) (svals : List SVal) (st : St) (frames : List Frame) (mp : Int) (stk : List SVal)
       (mem : Mem), SpecOK G mp st → 0 ≤ mp →
-    SimCall G (mangleFnName G.mod g) frames mp vals stk mem st
-      (callBody G.cfg fuel sp G.mod fd.params fd.body vals st)
+    SimCall G (mangleFnName G.mod g) frames mp svals stk mem st
+      (callBody G.cfg fuel sp G.mod fd.params fd.body (svals.map (·.v)) st)
 
 /-! ## Splitting well-scopedness -/
 
